@@ -65,8 +65,8 @@ func NewFix(cfg *fedlab.Config, uni *fedlab.Universe, exec *fedlab.ExecServer, P
 func (fx *Fix) Close() { fx.Lab.Close() }
 
 // Plan plans the operation with the fixture's planner configuration.
-func (fx *Fix) Plan(opText, opName string) (*resolve.GraphQLResponse, error) {
-	return BuildPlan(fx.PlanCfg, fx.Lab.Schema, opText, opName)
+func (fx *Fix) Plan(opText, opName string, vars []byte) (*resolve.GraphQLResponse, error) {
+	return BuildPlan(fx.PlanCfg, fx.Lab.Schema, opText, opName, vars)
 }
 
 // Mode of authorization.
